@@ -478,7 +478,7 @@ void Interpolation_2D::Save_Function(std::string filename, unsigned int x_points
 // Root finding with Ridder's method
 double Find_Root(std::function<double(double)> func, double xLeft, double xRight, double xAccuracy)
 {
-	const int Max_Iterations = 50;
+	const int Max_Iterations = 200;
 	// 1. Check if xLeft<xRight, otherwise swap.
 	if(xLeft > xRight)
 	{
@@ -526,14 +526,13 @@ double Find_Root(std::function<double(double)> func, double xLeft, double xRight
 			double f3 = func(x3);
 			// New point
 			double x4 = x3 + (x3 - x1) * Sign(f1 - f2) * f3 / sqrt(f3 * f3 - f1 * f2);
-			// Check if we found the root
-			if(fabs(x4 - result) < xAccuracy)
-				return x4;
-			// Prepare next iteration
-			result	  = x4;
 			double f4 = func(x4);
 			if(f4 == 0.0)
-				return result;
+				return x4;
+			// Two successive iterates agree. This alone does not locate the root (the iteration can creep), it is verified below.
+			bool iterates_agree = (fabs(x4 - result) < xAccuracy);
+			result				= x4;
+			// Prepare next iteration
 			// a) x3 and x4 bracket the root
 			if(Sign(f3, f4) != f3)
 			{
@@ -558,6 +557,31 @@ double Find_Root(std::function<double(double)> func, double xLeft, double xRight
 			{
 				std::cerr << "Error in libphysica::Find_Root(). Ridder's method does not reach the root." << std::endl;
 				std::exit(EXIT_FAILURE);
+			}
+			// x4 is now one end of the bracket [x1,x2]. Accept it only if the sign change lies within xAccuracy of it.
+			if(fabs(x2 - x1) < xAccuracy)
+				return result;
+			if(iterates_agree)
+			{
+				bool x4_is_x1  = (x4 == x1);
+				double x_other = x4_is_x1 ? x2 : x1;
+				double x5	   = x4 + ((x_other > x4) ? xAccuracy : -xAccuracy);
+				double f5	   = func(x5);
+				if(f5 == 0.0)
+					return x5;
+				if(Sign(f5, f4) != f5)
+					return result;
+				// No sign change between x4 and x5: tighten the bracket and continue.
+				if(x4_is_x1)
+				{
+					x1 = x5;
+					f1 = f5;
+				}
+				else
+				{
+					x2 = x5;
+					f2 = f5;
+				}
 			}
 		}
 		std::cout << "Warning in libphysica::Find_Root(): Iterations exceed the maximum. Final value f(" << result << ")=" << func(result) << std::endl;
